@@ -32,6 +32,7 @@ func (c *vhNullCron) Persistent() bool                                          
 // vhSystem: ttlKind 0 never, 1 finite (symbolic, 1ns..10s), 2 forever.
 func vhSystem(tag string, ttlKind int, checkExistence bool, linear bool) (*System, *Context) {
 	ctx := NewContext("c17" + tag)
+	ctx.LogHook = func(level LogLevel, args ...interface{}) { vjitter() }
 	conf := SystemConfig{Storage: "memory", CheckExistence: checkExistence, UnindexedState: linear}
 	cont := SystemControl{}
 	switch ttlKind {
